@@ -86,6 +86,26 @@ def main(tier):
                     info[cid] = ('collision', None)
                     pairs.append((cid, W, W))
                     continue
+                if cid % 10 == 8 and W['workloads']:
+                    # two DIFFERENT workloads with one namespace/name: a controller and a stand-alone Pod (their pods are X-1 and X: no
+                    # collision).  Without any policy every workload reaches every other one, these two included.
+                    base = run.rng.choice(W['workloads'])
+                    if base['kind'] == 'Pod':
+                        base['kind'], base['owner'] = 'StatefulSet', None
+                    W['workloads'].append({'kind': 'Pod', 'ns': base['ns'], 'name': base['name'], 'labels': {'app': 'z'}, 'ports': [], 'replicas': None, 'owner': None})
+                    W['netpols'], W['anps'], W['banp'] = [], [], None
+                    info[cid] = ('samename', None)
+                    pairs.append((cid, W, W))
+                    continue
+                if cid % 10 in (3, 6) and W['workloads']:
+                    # a workload whose name is another one's name plus "-1" (the name of that one's first generated pod), one replica
+                    base = run.rng.choice(W['workloads'])
+                    if base['kind'] == 'Pod':
+                        base['kind'], base['owner'] = 'Deployment', None
+                    base['replicas'] = run.rng.choice([2, 3])
+                    if not any(w['ns'] == base['ns'] and w['name'] == base['name'] + '-1' for w in W['workloads']):
+                        W['workloads'].append({'kind': run.rng.choice(['Deployment', 'StatefulSet', 'ReplicaSet']), 'ns': base['ns'], 'name': base['name'] + '-1',
+                                               'labels': {'app': 'sfx'}, 'ports': [], 'replicas': run.rng.choice([None, 1]), 'owner': None})
                 W2, how = reexpress(run.rng, W)
                 info[cid] = ('reexpress', how)
                 pairs.append((cid, W, W2))
@@ -103,6 +123,14 @@ def main(tier):
                 if o1['outcome'] != 'ok' or o2['outcome'] != 'ok':
                     if kind == 'reexpress' and o1['outcome'] != o2['outcome']:
                         run.report(None, 'outcome-%d' % cid, dict(payload, before=o1.get('err'), after=o2.get('err')), 're-expression changes whether the analysis succeeds')
+                    continue
+                if kind == 'samename':
+                    wl = sorted(p['str'] for p in o1['peers'] if not p['ip'])
+                    have = {(e['src'], e['dst']) for e in o1['conns'] if e['conn']['all']}
+                    missing = [(a, b_) for a in wl for b_ in wl if a != b_ and (a, b_) not in have]
+                    if len(wl) != len(W['workloads']) or missing:
+                        run.report(None, 'samename-%d' % cid, dict(payload, workload_peers=wl, missing_entries=missing[:6]),
+                                   'without any policy every workload reaches every other one; two workloads sharing namespace/name (a controller and a stand-alone Pod) are two peers')
                     continue
                 for o, Wx, tag in ((o1, W, 'before'), (o2, W2, 'after')):
                     want = sorted(set('%s/%s' % x for x in logical(Wx)))
@@ -149,6 +177,13 @@ def replay(payload):
         if o1['outcome'] == 'ok' and o2['outcome'] == 'ok' and payload.get('kind') == 'reexpress':
             if meta.coq_rel([(1, 'eq', [], [], o1, o2, strip_kind)]):
                 run.report(None, 'replay', payload, 'reports differ')
+        if payload.get('kind') == 'samename':
+            if o1['outcome'] == 'ok':
+                wl = sorted(p['str'] for p in o1['peers'] if not p['ip'])
+                have = {(e['src'], e['dst']) for e in o1['conns'] if e['conn']['all']}
+                if len(wl) != len(payload['world']['workloads']) or any((a, b_) not in have for a in wl for b_ in wl if a != b_):
+                    run.report(None, 'replay', payload, 'two workloads sharing namespace/name are not two fully connected peers')
+            return run.finish()
         for o, Wx in ((o1, payload['world']), (o2, payload['reexpressed'])):
             if o['outcome'] == 'ok':
                 want = sorted(set('%s/%s' % x for x in logical(Wx)))
